@@ -17,10 +17,11 @@
     - [compile_straightline_correct_partial]: the simulation for straight-line code of any length
       (all opcodes without control flow except rem_s).
     - [compile_block_correct_partial]: the simulation for whole function bodies built from the
-      constructs accepted by [blocks_ok]: straight-line code, result-less block / if / if-else entered at
-      an empty operand stack, br (last in its body) and br_if to result-less labels, any nesting depth;
-      jump targets are read from the back-patched final code.
-    NOT proved (correspondence-only, see design/C01.md): loops, calls, br_table, return, values carried
+      constructs accepted by [blocks_ok]: straight-line code, result-less block / loop / if / if-else
+      entered at an empty operand stack, br and unreachable (last in their body), br_if, any nesting depth,
+      back edges to loop labels; forward jump targets are read from the back-patched final code.
+      [compile_loop_correct_partial] is the same statement (loops are part of [blocks_ok]).
+    NOT proved (correspondence-only, see design/C01.md): calls, br_table, return, values carried
     through [end] / [br] (block results), blocks entered with operands below them. *)
 From Coq Require Import ZArith NArith List Bool.
 From CB Require Import Common.IntN Common.IntNProofs Wasm.Syntax Wasm.SyntaxProofs Wasm.Sem Wasm.SemProofs
@@ -286,8 +287,9 @@ Print Assumptions straightline_memory_nonvacuous.
 (** ** Stage B: structured control without loops and calls.
     For a function without result whose body [is] consists of the constructs accepted by [blocks_ok]
     ([Wasm/BlockSim.v], [ctl_ok]: instructions accepted by [straight_ok] with local indices below [nl];
-    [block] and [if] / [if-else] without result type, entered when the operand stack is empty;
-    [br l] as the last instruction of its body and [br_if l], all labels being result-less - so neither
+    [block], [loop] and [if] / [if-else] without result type, entered when the operand stack is empty;
+    [br l] and [unreachable] as the last instruction of their body and [br_if l] (to block, if, loop or
+    function labels), all labels being result-less - so neither
     KF-C01-1 (br_if carrying a value) nor KF-C01-2 (local.set below an open conditional region with the
     local on the stack) can occur, which is what [~ KnownClass] would exclude), compiled by
     [compile_ops] from the function-entry state including the final [end] (which back-patches the jumps
@@ -298,7 +300,8 @@ Print Assumptions straightline_memory_nonvacuous.
       instruction after the matching [end] / at the start of the else branch;
     - traps whenever the reference interpreter traps;
     - and the reference interpreter never branches out of the body.
-    Out-of-fuel and stuck (ill-typed) runs of the interpreter are not constrained. *)
+    Out-of-fuel and stuck (ill-typed) runs of the interpreter are not constrained: for a diverging loop the
+    theorem says nothing (the induction is on the interpreter's fuel; each back edge is one more unfolding). *)
 Theorem compile_block_correct_partial :
   forall (art : artifact) (mhost : nat -> list Z -> option (option Z)) (cap : N)
          (host : nat -> list val -> option memory -> host_result) (m : module) (cx : cctx)
@@ -322,6 +325,48 @@ Theorem compile_block_correct_partial :
         end.
 Proof. exact compile_block_correct. Qed.
 Print Assumptions compile_block_correct_partial.
+
+(** the same statement under the name the design uses for loops: [blocks_ok] accepts [loop] without result
+    entered at an empty operand stack, with back edges [br] / [br_if] to the loop label *)
+Theorem compile_loop_correct_partial :
+  forall (art : artifact) (mhost : nat -> list Z -> option (option Z)) (cap : N)
+         (host : nat -> list val -> option memory -> host_result) (m : module) (cx : cctx)
+         (is : list instr) (nl next : Z) (v' : vstate) (sF : cstate) (rest_code : list N),
+    blocks_ok nl cx is = true -> 0 <= nl <= next ->
+    compile_ops cx (flatten_body is) (init_vstate None) (init_fstate next) = Some (v', sF) ->
+    c_next sF < 2147483648 -> Z.of_nat (length (c_consts sF)) < 2147483648 ->
+    Z.of_nat (length (c_out sF ++ rest_code)) < 4294967296 ->
+    forall (codes : list (code_map * list Z)) (fidx : nat),
+      nth_error codes fidx
+        = Some (build_code (c_out sF ++ rest_code) xH (PositiveMap.empty N), map fst (c_consts sF)) ->
+      forall (st : store) (locals : list val) (M : mstate) (fuel : nat),
+        rel art fidx (map fst (c_consts sF)) nl (c_next sF) cap (init_fstate next) st locals [] M ->
+        match exec_instr host cap m fuel st locals [] (Block None is) with
+        | RNormal st' l' vs' =>
+            vs' = [] /\ exists n M', nsteps art mhost codes n M = SNext M'
+                       /\ rel art fidx (map fst (c_consts sF)) nl (c_next sF) cap sF st' l' [] M' /\ frame_eq M M'
+        | RTrap => exists n e, nsteps art mhost codes n M = STrap e
+        | RBr _ _ _ _ => False
+        | _ => True
+        end.
+Proof. exact compile_block_correct. Qed.
+Print Assumptions compile_loop_correct_partial.
+
+(** non-vacuity for loops: a counting loop (back edge [br 0], exit [br_if 1] out of loop and block) followed
+    by a guarded [unreachable]; runs that iterate 4 and 0 times, one that traps, one that runs out of fuel *)
+Example loops_nonvacuous :
+  blocks_ok 2 blk_cx loop_body = true
+  /\ (exists v' sF, compile_ops blk_cx (flatten_body loop_body) (init_vstate None) (init_fstate 2) = Some (v', sF)
+       /\ c_bp sF = [] /\ c_stack sF = []
+       /\ c_next sF < 2147483648 /\ Z.of_nat (length (c_consts sF)) < 2147483648
+       /\ Z.of_nat (length (c_out sF ++ [IReturn])) < 4294967296)
+  /\ (forall host cap m st,
+        exec_instr host cap m 200 st [VI32 4; VI32 0] [] (Block None loop_body) = RNormal st [VI32 0; VI32 10] []
+        /\ exec_instr host cap m 200 st [VI32 0; VI32 7] [] (Block None loop_body) = RNormal st [VI32 0; VI32 7] []
+        /\ exec_instr host cap m 200 st [VI32 20; VI32 0] [] (Block None loop_body) = RTrap
+        /\ exec_instr host cap m 20 st [VI32 20; VI32 0] [] (Block None loop_body) = RFuel).
+Proof. exact ex_loop. Qed.
+Print Assumptions loops_nonvacuous.
 
 (** non-vacuity: two nested blocks, a br_if out of both, an if/else whose then-branch ends with a br
     out of the if and both blocks, a one-armed if; the hypotheses hold and three runs of the reference
